@@ -192,6 +192,7 @@ def mk_env_fresh(vals, mode):
         pass
     env = E()
     env._vref = vref
+    env._eref = eref
     return env, madexpr, madeval, variables, elements
 
 
@@ -246,18 +247,46 @@ def run_case(case, fail, stats):
     if p_imm != imm:
         fail("C19", "parenthesised-form-differs", {"text": s, "parenthesised": ptext, "value": imm, "parenthesised_value": p_imm})
     # and stays in agreement after the variables change through the manager
-    if expr is not None and hasattr(expr, "_get_value") and case.get("then"):
-        for name, v in case["then"]:
-            try:
-                env._vref[name] = v
-            except Exception:
-                return
-        imm2 = outcome(lambda: madeval(s))
-        def2 = outcome(expr._get_value)
-        zd2 = has_zero_div(tree, variables, elements, mode)
-        stats["update_cases"] += 1
-        if not zd2 and def2 != imm2:
-            fail("C19", "deferred-differs-after-update", {"text": s, "then": case["then"], "deferred": def2, "immediate": imm2})
+    if expr is not None and hasattr(expr, "_get_value") and (case.get("then") or case.get("then_el")):
+        # a managed variable defined by the deferred expression: what the manager PUSHES into it has to follow as well
+        try:
+            env._vref["out__"] = expr
+            bound = True
+        except Exception:
+            bound = False
+        try:
+            for name, v in case.get("then", []):
+                try:
+                    env._vref[name] = v
+                except Exception:
+                    return
+            for el, key, v in case.get("then_el", []):
+                try:
+                    if mode == "item":
+                        env._eref[el][key] = v
+                    else:
+                        setattr(env._eref[el], key, v)
+                except Exception:
+                    return
+            imm2 = outcome(lambda: madeval(s))
+            def2 = outcome(expr._get_value)
+            zd2 = has_zero_div(tree, variables, elements, mode)
+            stats["update_cases"] += 1
+            if not zd2 and def2 != imm2:
+                fail("C19", "deferred-differs-after-update", {"text": s, "then": case.get("then"), "then_el": case.get("then_el"),
+                                                             "deferred": def2, "immediate": imm2})
+            elif bound and not zd2 and imm2[0] == "ok":
+                stats["pushed_checks"] = stats.get("pushed_checks", 0) + 1
+                held = outcome(lambda: variables.get("out__"))
+                if held != imm2:
+                    fail("C19", "bound-variable-stale-after-update", {"text": s, "mode": mode, "then": case.get("then"),
+                                                                      "then_el": case.get("then_el"), "holds": held, "immediate": imm2})
+        finally:
+            if bound:
+                try:
+                    env._vref["out__"] = 0.0      # drop the definition again
+                except Exception:
+                    pass
 
 
 def normalise(tree):
@@ -298,6 +327,9 @@ def main():
             c = {"text": gen_sum(rng, rng.randint(1, a.depth)), "vals": vals, "mode": rng.choice(["item", "item", "attr"])}
             if rng.random() < 0.5:
                 c["then"] = [[rng.choice(VARS), rng.choice([0.0, 1.0, 2.5, -3.0])] for _ in range(rng.randint(1, 2))]
+            if rng.random() < 0.4:
+                el = rng.choice(sorted(ELEMS))
+                c["then_el"] = [[el, rng.choice(sorted(ELEMS[el])), rng.choice([0.5, -2.0, 4.0])]]
             cases.append(c)
     for i, case in enumerate(cases):
         def fail(prop, kind, detail, known=None, i=i):
